@@ -461,6 +461,8 @@ B2JOBS = [
 B2JOBS.append(dict(name='int_lemmas', mode='int', functions=[], property_file='specs/int_lemmas.smt2',
                    props=['C07', 'C17', 'C01', 'C10', 'C02']))
 
+B2JOBS.append(dict(name='c01_measure', mode='real', functions=[], property_file='specs/C01.smt2', props=['C01'],
+                   assumptions=['B2r: floating-point arithmetic treated as real arithmetic (C01 is stated "to rounding")', 'these are lemmas over the formulas pinned by the contracts C01.vegas_point / C07.weight / C01.mc_weight, not over code']))
 _MCR = {'mc_result': [('size_t', 'calls_'), ('size_t', 'non_zero_calls_'), ('size_t', 'finite_calls_'), ('T', 'sum_'), ('T', 'sum_of_squares_')]}
 B2JOBS.append(dict(name='result_formulas', mode='real', functions=['mc_result_value', 'mc_result_variance', 'mc_result_error'], structs=_MCR,
                    property_file='specs/C13.smt2', props=['C02', 'C13'],
